@@ -368,6 +368,9 @@ func (a *Application) handleNonStreamingBackendError(
 	pr *proxyRequest,
 	trans translator.RequestTranslator,
 ) error {
+	// the client is about to see an error status: the request must not be counted as a success
+	pr.hadError = true
+
 	pr.requestLogger.Debug("Backend returned error, translating to target format",
 		"status_code", recorder.status,
 		"translator", trans.Name())
@@ -618,6 +621,9 @@ func (a *Application) handleStreamingBackendError(
 	pr *proxyRequest,
 	trans translator.RequestTranslator,
 ) {
+	// the client is about to see an error status: the request must not be counted as a success
+	pr.hadError = true
+
 	pr.requestLogger.Debug("Backend returned error in streaming mode, translating to target format",
 		"status_code", streamRecorder.status,
 		"translator", trans.Name())
